@@ -168,7 +168,7 @@ def random_files(rng, n):
                 else:
                     vs = [enc("".join(rng.choice(alphabet) for _ in range(rng.choice([1, 2, 4, 8])))) for _ in range(rng.choice([0, 1, 1, 1, 2, 3]))]
                 a.append([enc(kk), vs])
-            rows.append({"n": rng.randrange(12), "a": a})
+            rows.append({"n": rng.randrange(18), "a": a})
         files.append({"generated": True, "d": d, "rows": rows, "cl": rng.choice([0, 1, 10, 11, 12, 50]), "lines": []})
     return files
 
